@@ -352,7 +352,48 @@ def inject_diagnostics(prog, rng):
             e.attrs.append(Attr("allow", [rng.choice(["NotALint", "deprecated", "é"])]))
 
 
+def run_catalogue(ctx):
+    """Every diagnostic of C04's violation catalogue (injectors and whole-file cases) and of C16's comment defects carries a
+    location, the location is sane, and for an injected snippet it lies in the snippet's own lines."""
+    from . import c04, c16
+    cases = []
+    for rule, codes, snippet in c04.injectors():
+        cases.append((rule, ["module M\nstruct Host { h: bool }\n" + snippet + "\n"], 3))
+    for key, codes, texts in c04.file_level_cases():
+        if codes:
+            cases.append((key, list(texts), None))
+    for name, lines, lints in c16.DEFECTS:
+        cases.append(("comment/" + name, ["module M\nstruct Before {}\n" + "\n".join(lines) + "\nstruct Host { a: bool }\n"], 3))
+    resps = ctx.worker.batch([{"op": "compile", "files": t, "want": ["diags"], "emit": "human"} for _, t, _ in cases])
+    for (rule, texts, first_row), r in zip(cases, resps):
+        ctx.note_case(("catalogue", rule))
+        ctx.stats["catalogue_cases"] += 1
+        replay = {"kind": "library", "call": "compile_from_strings", "files": texts, "rule": rule}
+        if "died" in r or r.get("panic"):
+            p = r.get("panic") or {"message": "worker " + r["died"], "location": "?"}
+            ctx.violate(core.panic_signature(p), "crashed: %s" % p, replay)
+            continue
+        for d in r["diags"]:
+            ctx.stats["catalogue_diagnostics"] += 1
+            replay["diagnostic"] = [d["code"], d["message"], d["span"]]
+            if d["span"] is None:
+                ctx.violate("diagnostic-without-location:" + d["code"], "%s (%s) about %s carries no location" % (d["code"], d["message"][:80], rule), replay)
+                break
+            why = sane(d["span"], texts)
+            if why:
+                ctx.violate("span-insane:diagnostic", "diagnostic span %s: %r" % (why, d["span"]), replay)
+                break
+            if first_row is not None and d["span"][0] < first_row and not rule.startswith("comment/"):
+                ctx.violate("diagnostic-points-elsewhere:" + rule.split("/")[0], "%s about %s points at line %d, the offending text starts at line %d"
+                            % (d["code"], rule, d["span"][0], first_row), replay)
+                break
+        else:
+            check_snippets(ctx, texts, r, "catalogue", replay)
+
+
 def run_shard(ctx, spec):
+    if spec[0] == "catalogue":
+        return run_catalogue(ctx)
     kind, count, idx = spec
     rng = ctx.rng("%s/%d" % (kind, idx))
     if kind == "spans":
@@ -390,7 +431,7 @@ def run_shard(ctx, spec):
 def plan(tier, seed):
     n = 20000 if tier == "quick" else 200000
     m = 10000 if tier == "quick" else 100000
-    return [("spans", n // 16, i) for i in range(16)] + [("snippets", m // 16, i) for i in range(16)]
+    return [("spans", n // 16, i) for i in range(16)] + [("snippets", m // 16, i) for i in range(16)] + [("catalogue",)]
 
 
 def main(tier, seed):
